@@ -183,3 +183,84 @@ macro_rules! any_impl {
     )*};
 }
 any_impl!(u8, u16, u32, u64, usize, i32, i64, bool);
+
+/// Minimal model of `std::io::{Read, Write}` + `byteorder` for framing code: in-memory, and an
+/// error type without heap or drop glue (`std::io::Error` is costly for CBMC).
+pub mod io {
+    #[derive(Debug, Clone, Copy, PartialEq)]
+    pub enum Error {
+        UnexpectedEof,
+        WriteZero,
+        InvalidData,
+    }
+    pub type Result<T> = core::result::Result<T, Error>;
+
+    pub trait Write {
+        fn write_all(&mut self, buf: &[u8]) -> Result<()>;
+    }
+    pub trait Read {
+        fn read_exact(&mut self, buf: &mut [u8]) -> Result<()>;
+    }
+    impl<W: Write + ?Sized> Write for &mut W {
+        fn write_all(&mut self, buf: &[u8]) -> Result<()> {
+            (**self).write_all(buf)
+        }
+    }
+    impl<R: Read + ?Sized> Read for &mut R {
+        fn read_exact(&mut self, buf: &mut [u8]) -> Result<()> {
+            (**self).read_exact(buf)
+        }
+    }
+    /// like `impl Write for &mut [u8]`: writes at the front and advances
+    impl Write for &mut [u8] {
+        fn write_all(&mut self, buf: &[u8]) -> Result<()> {
+            if buf.len() > self.len() {
+                return Err(Error::WriteZero);
+            }
+            let (a, b) = core::mem::take(self).split_at_mut(buf.len());
+            let mut i = 0;
+            while i < buf.len() {
+                a[i] = buf[i];
+                i += 1;
+            }
+            *self = b;
+            Ok(())
+        }
+    }
+    /// like `impl Read for &[u8]`
+    impl Read for &[u8] {
+        fn read_exact(&mut self, buf: &mut [u8]) -> Result<()> {
+            if buf.len() > self.len() {
+                return Err(Error::UnexpectedEof);
+            }
+            let (a, b) = self.split_at(buf.len());
+            let mut i = 0;
+            while i < buf.len() {
+                buf[i] = a[i];
+                i += 1;
+            }
+            *self = b;
+            Ok(())
+        }
+    }
+
+    /// `byteorder::{LittleEndian, ReadBytesExt, WriteBytesExt}` (u32 only)
+    pub mod byteorder {
+        use super::{Read, Result, Write};
+        pub struct LittleEndian;
+        pub trait WriteBytesExt: Write {
+            fn write_u32<B>(&mut self, v: u32) -> Result<()> {
+                self.write_all(&v.to_le_bytes())
+            }
+        }
+        impl<W: Write + ?Sized> WriteBytesExt for W {}
+        pub trait ReadBytesExt: Read {
+            fn read_u32<B>(&mut self) -> Result<u32> {
+                let mut b = [0u8; 4];
+                self.read_exact(&mut b)?;
+                Ok(u32::from_le_bytes(b))
+            }
+        }
+        impl<R: Read + ?Sized> ReadBytesExt for R {}
+    }
+}
